@@ -30,7 +30,8 @@ package testutil
 //@     invariant [exist] forall k int :: { attachments[k] } 0 <= k && k < len(attachments) ==> (attachments[k].Pool in ec.pools)
 //@     invariant [rep] linksDistinct(ec) && linksApart(ec)
 //@     invariant [done] forall k int :: { attachments[k] } 0 <= k && k <= rangeindex ==> linked(ec, attachments[k].Account, attachments[k].Pool)
-//@   loop "range ec.attached[a.Account]"
+// (the scan loop is keyed by its position, not by the text of the list it ranges over)
+//@   loop "range *" #3
 //@     invariant [scan] !already ==> (forall i int :: { ec.attached[a.Account][i] } 0 <= i && i <= rangeindex ==> ec.attached[a.Account][i] != a.Pool)
 //@   ensures [rep] linksDistinct(ec) && linksApart(ec)
 //@   ensures [pools-exist] result == nil ==> (forall k int :: { attachments[k] } 0 <= k && k < len(attachments) ==> (attachments[k].Pool in ec.pools))
